@@ -131,6 +131,28 @@ def _v(oracle, sig, detail):
     return {"oracle": oracle, "sig": f"{oracle}|{sig}", "detail": detail}
 
 
+def same_report(out: str, want: str | None, fmt: str) -> bool:
+    """Semantic equality with the expected document: the property fixes the content (data rows, columns,
+    report_id; the cells for CSV), not the indentation, key order or CSV quoting style.  stdout must hold
+    exactly one document and nothing else."""
+    if want is None:
+        return False
+    if out == want:
+        return True
+    if fmt == "json":
+        try:
+            g, w = json.loads(out), json.loads(want)
+        except ValueError:
+            return False
+        return isinstance(g, dict) and all(g.get(k) == w[k] for k in ("data", "columns", "report_id"))
+    try:
+        g = [r for r in csv.reader(io.StringIO(out)) if r]
+        w = [r for r in csv.reader(io.StringIO(want)) if r]
+    except csv.Error:
+        return False
+    return g == w
+
+
 def _wellformed(out: str, fmt: str) -> bool:
     if fmt == "json":
         try:
@@ -162,11 +184,8 @@ def oracles(spec: dict, inputs: list[dict], r: dict) -> list[dict]:
         if p["hang"]:
             V.append(_v("exit", "hang", f"{ps['argv']} did not terminate"))
             continue
-        verbose = "--verbose" in ps["argv"]
-        if "Traceback (most recent call last)" in err and not verbose:
-            V.append(_v("stdout-pure", "traceback", f"{ps['argv']} printed a traceback: {err[-300:]}"))
-        if p["how"] and p["how"].startswith("uncaught"):
-            V.append(_v("exit", "uncaught|" + p["how"], f"{ps['argv']} ended with an uncaught exception: {err[-300:]}"))
+        # (a traceback on stderr is a diagnostic on stderr: allowed by the property; an uncaught exception is judged
+        # by its exit status like everything else)
         faults = p["faults"]
         if not faults:
             # ---------------- fault-free: the contract applies verbatim
@@ -181,7 +200,7 @@ def oracles(spec: dict, inputs: list[dict], r: dict) -> list[dict]:
                 if not _wellformed(out, ps["fmt"]):
                     V.append(_v("content", "malformed", f"{ps['argv']}: stdout is not a well-formed report: {out[:200]!r}"))
                 continue
-            if out != exp["stdout"]:
+            if not same_report(out, exp["stdout"], ps["fmt"]):
                 what = "malformed" if not _wellformed(out, ps["fmt"]) else "other-report-or-cells"
                 if what != "malformed" and ps["fmt"] == "json":
                     got = json.loads(out)
@@ -228,7 +247,7 @@ def oracles(spec: dict, inputs: list[dict], r: dict) -> list[dict]:
             first_open = next((e for e in r["events"] if e[2] == "open-r" and e[3] == inp["rel"]), None)
             if first_open is not None and first_open[0] == f0["seq"] and code != 1:
                 V.append(_v("exit", f"unreadable|want1|got{code}", f"{ps['argv']}: input unreadable from the start ({f0}) must exit 1, got {code}"))
-        if code == 0 and not any_short and not clocky_run and out != exp.get("stdout") and exp["exit"] == 0:
+        if code == 0 and not any_short and not clocky_run and exp["exit"] == 0 and not same_report(out, exp.get("stdout"), ps["fmt"]):
             V.append(_v("content", f"faulted|{ps['fmt']}", f"{ps['argv']} exited 0 after {faults} but stdout is not the expected report: {out[:200]!r}"))
         if code == 0 and exp["exit"] != 0 and not any_short:
             V.append(_v("exit", f"faulted-success|{inp['kind']}", f"{ps['argv']} exited 0 on {inp['kind']} input after {faults}"))
@@ -237,7 +256,7 @@ def oracles(spec: dict, inputs: list[dict], r: dict) -> list[dict]:
             # (fault after the report was emitted, e.g. SIGINT during cleanup, EPIPE at flush)
             if any_short or clocky_run:
                 pass
-            elif exp.get("stdout") is not None and exp["exit"] == 0 and (out == exp["stdout"] or (exp["stdout"].startswith(out) and any(f["kind"] == "epipe" for f in faults))):
+            elif exp.get("stdout") is not None and exp["exit"] == 0 and (same_report(out, exp["stdout"], ps["fmt"]) or (exp["stdout"].startswith(out) and any(f["kind"] == "epipe" for f in faults))):
                 pass
             else:
                 V.append(_v("stdout-pure", f"output-on-failure|faulted", f"{ps['argv']} exited {code} after {faults} with stdout {out[:160]!r}"))
